@@ -122,6 +122,8 @@ Definition zin (l : list Z) (x : Z) : bool := existsb (Z.eqb x) l.
 Definition ew2 (pattern : Z) (a b : arr Z) (zero_labels : list Z) : out :=
   if existsb (zin zero_labels) (elems b) then OErr EParam
   else if (pattern =? 0)%Z then out_res oparr (lift2 0%Z (fun x y => (x, y)) a b)
+  else if (pattern =? 2)%Z then      (* the heterogeneous pair broadcast (round / around: values against decimal places) *)
+    out_res (fun pr : arr Z * arr Z => OPArr (shape (fst pr)) (combine (elems (fst pr)) (elems (snd pr)))) (broadcast_h2 0%Z 0%Z a b)
   else out_res oparr (zipop 0%Z (fun x y => (x, y)) a b).
 
 Definition zlift (f : Z -> Z -> Z) (args : list arg) : out :=
@@ -549,6 +551,16 @@ Definition table_str : list (string * (list arg -> out)) :=
   ; ("s_rsplit", fun args => match args with
        | [ASA s e; sep; lim] => match optsa sep, optna lim with
            | Some sep, Some lim => out_res olarr (str_split true (mksa s e) sep lim) | _, _ => OBad end
+       | _ => OBad end)
+  ; ("s_translate", fun args => match args with
+       | [ASA s e; AL tbl] =>
+         let pairs := (fix go l := match l with x :: y :: t => (x, y) :: go t | _ => [] end) tbl in
+         out_res osarr (str_map (fun a => s_translate a pairs) (mksa s e))
+       | _ => OBad end)
+  ; ("s_zfill", fun args => match args with
+       | [ASA s e; AZ w] =>
+         if negb (forallb is_simple_number e) then OErr EParam
+         else out_res osarr (str_map (fun a => s_zfill a (clamp w)) (mksa s e))
        | _ => OBad end)
   ; ("s_replace", fun args => match args with
        | [ASA s e; ASA s2 e2; ASA s3 e3; c] => match optn c with
